@@ -34,8 +34,9 @@ type jv struct {
 }
 
 type jparser struct {
-	s string
-	i int
+	s      string
+	i      int
+	strict bool // reject what RFC 8259 rejects inside strings (unknown escapes such as \x1b, raw control characters)
 }
 
 func (p *jparser) ws() {
@@ -44,8 +45,13 @@ func (p *jparser) ws() {
 	}
 }
 
-func parseJSON(s string) (*jv, error) {
-	p := &jparser{s: s}
+// parseJSONStrict is used on what the implementation PRINTED: the output must be valid JSON.
+func parseJSONStrict(s string) (*jv, error) { return parseWith(&jparser{s: s, strict: true}) }
+
+// parseJSON is used on the generated input (as lenient about escapes as fastjson is).
+func parseJSON(s string) (*jv, error) { return parseWith(&jparser{s: s}) }
+
+func parseWith(p *jparser) (*jv, error) {
 	v, err := p.value(0)
 	if err != nil {
 		return nil, err
@@ -205,8 +211,21 @@ func (p *jparser) str() (string, error) {
 			p.i++
 			return unescape(p.s[st : p.i-1]), nil
 		case '\\':
+			if p.strict {
+				if p.i+1 >= len(p.s) || !strings.ContainsRune(`"\\/bfnrtu`, rune(p.s[p.i+1])) {
+					return "", fmt.Errorf("invalid escape at %d", p.i)
+				}
+				if p.s[p.i+1] == 'u' {
+					if _, ok := hex4(p.s[min(p.i+2, len(p.s)):]); !ok {
+						return "", fmt.Errorf("invalid \\u escape at %d", p.i)
+					}
+				}
+			}
 			p.i += 2
 		default:
+			if p.strict && p.s[p.i] < 0x20 {
+				return "", fmt.Errorf("raw control character at %d", p.i)
+			}
 			p.i++
 		}
 	}
